@@ -235,7 +235,7 @@ def select_programs(names, tier, seed):
     # unchecked fast path hides: nothing is there to be rejected), at 0 / 2 simulated CPUs; every conversion
     for i, n in enumerate(names):
         parts = n.split("/")
-        if parts[0] in GENERATED:
+        if parts[0] in GENERATED + ("rand_tree",):
             continue
         if parts[0].startswith("from_") or (parts[3] in ("in0", "inlast") and parts[4] in ("in0", "inlast")
                                             and parts[5] == "cb0" and parts[6] in ("t0", "t2")):
@@ -245,9 +245,11 @@ def select_programs(names, tier, seed):
             chosen.add(i)
     stride = 7
     off = seed % stride
-    chosen.update(i for i in range(off, len(names), stride) if names[i].split("/")[0] not in GENERATED)
+    chosen.update(i for i in range(off, len(names), stride) if names[i].split("/")[0] not in GENERATED + ("rand_tree",))
     # generated call sequences and generated structures are the slowest programs under Miri: a rotating
     # 1/20 of each in quick
+    # user-built predecessor trees are tiny: all of them
+    chosen.update(i for i, n in enumerate(names) if n.startswith("rand_tree/"))
     for fam in GENERATED:
         gen = [i for i, n in enumerate(names) if n.startswith(fam + "/")]
         chosen.update(gen[seed % 20::20])
@@ -255,7 +257,7 @@ def select_programs(names, tier, seed):
 
 
 def threaded_programs(names):
-    return [i for i, n in enumerate(names) if n.split("/")[6] != "t0" and n.split("/")[0] not in GENERATED]
+    return [i for i, n in enumerate(names) if n.split("/")[6] != "t0" and n.split("/")[0] not in GENERATED + ("rand_tree",)]
 
 
 def write_replay(pid, seed, f, flags):
